@@ -39,6 +39,7 @@ CALC_GROUP = {"xray_n": "xray", "xray_N": "xray", "xray_all_fwd": "xray", "xray_
 INIT_GROUP = {"nsf.init": "neutron", "xsf.init": "xray", "xsf.init_spectral_lines": "emission",
               "covalent_radius.init": "covalent_radius", "crystal_structure.init": "crystal_structure",
               "magnetic_ff.init": "magnetic_ff", "activation.init": "activation", "mass.init": None, "density.init": None}
+INIT_GROUP.update((e + "+reload", g) for e, g in list(INIT_GROUP.items()))
 DIGEST_GROUP = dict((g, g) for g in H.GROUPS)
 DIGEST_GROUP.update(("calc:" + c, g) for c, g in CALC_GROUP.items())
 DIGEST_GROUP["calc:list"] = "covalent_radius"
@@ -51,7 +52,7 @@ def full_alphabet():
             for r in H.ROUTES:
                 evs.append([means, p, r, "public"])
     evs += [["import", m] for m in H.MODULES]
-    evs += [["init", e, "public"] for e in H.INIT_ENTRIES]
+    evs += [["init", e, "public"] for e in H.INIT_ENTRIES + H.RELOAD_ENTRIES]
     evs += [["calc", c, "public"] for c in H.CALCS]
     return evs
 
@@ -64,7 +65,7 @@ def reduced_alphabet():
             for means in ("read", "hasattr"):
                 evs.append([means, p, r, "public"])
     evs += [["import", m] for m in H.MODULES]
-    evs += [["init", e, "public"] for e in H.INIT_ENTRIES]
+    evs += [["init", e, "public"] for e in H.INIT_ENTRIES + H.RELOAD_ENTRIES]
     evs += [["calc", c, "public"] for c in H.CALCS]
     return evs
 
